@@ -48,10 +48,15 @@ func init() {
 		"(reflect.Value).Pointer":      ext۰reflect۰Value۰Pointer,
 		"(reflect.Value).Set":          ext۰reflect۰Value۰Set,
 		"(reflect.Value).String":       ext۰reflect۰Value۰String,
-		"(reflect.Value).Type":         ext۰reflect۰Value۰Type,
+		"(reflect.Value).Type":         ext۰reflect۰Value۰TypeChecked,
 		"(reflect.Value).Uint":         ext۰reflect۰Value۰Uint,
 		"(reflect.error).Error":        ext۰reflect۰error۰Error,
 		"(reflect.rtype).Bits":         ext۰reflect۰rtype۰Bits,
+		"(reflect.rtype).AssignableTo": ext۰reflect۰rtype۰AssignableTo,
+		"(reflect.rtype).Name":         ext۰reflect۰rtype۰Name,
+		"(reflect.Value).Addr":         ext۰reflect۰Value۰Addr,
+		"(reflect.Value).CanSet":       ext۰reflect۰Value۰CanSet,
+		"reflect.Append":               ext۰reflect۰Append,
 		"(reflect.rtype).Elem":         ext۰reflect۰rtype۰Elem,
 		"(reflect.rtype).Field":        ext۰reflect۰rtype۰Field,
 		"(reflect.rtype).In":           ext۰reflect۰rtype۰In,
